@@ -297,6 +297,7 @@ def e2e_cases(draw, profile):
         'faults': draw(fault_plans(profile, ts, cfg)),
         'end': draw(ends(profile)),
         'sched': draw(schedules()),
+        'hash_salt': draw(st.integers(0, 5)),
     }
     if profile.get('lines') and draw(st.integers(0, 3)) == 0:
         # line-granularity preemption: the n-th executed source line of
